@@ -34,6 +34,7 @@ pub fn is_annotation(opcode: spirv::Op) -> bool {
             | spirv::Op::DecorationGroup
             | spirv::Op::GroupDecorate
             | spirv::Op::GroupMemberDecorate
+            | spirv::Op::DecorateId
             | spirv::Op::DecorateString
             | spirv::Op::MemberDecorateStringGOOGLE
     )
